@@ -299,6 +299,7 @@ def execute(case, ctx):
             viol("server", "served snapshot parses with corruption warnings", str(q.messages[:2]), key="server:warnings")
         if rb.T(R) != Tref:
             if os.environ.get("VERIF_DEBUG"):
+                print("DEBUG is_sync fields", {k: struct.unpack("<I", fd[k])[0] for k in (65, 141, 120, 152) if k in fd}, "dt", struct.unpack("<d", fd[3])[0], "dt_last_done", struct.unpack("<d", fd[145])[0], "delivered", inf)
                 print("DEBUG continuation mismatch: snapshot status", status, "sd", sd, "R.t", R.t, "R.dt", R.dt, "R.status", R._status, "R.steps", R.steps_done, "tmax", tmax, "exact", exact, "msgs", q.messages)
             key = "server:continuation"
             synced = {"whfast": 65, "saba": 141, "mercurius": 120, "eos": 152}.get(cfg["integrator"])
@@ -314,7 +315,10 @@ def execute(case, ctx):
                     except Exception:
                         pass
             unsafe = cfg.get("opts", {}).get("ri_%s.safe_mode" % cfg["integrator"], 1) == 0
-            if key == "server:continuation" and status is not None and (status == -2 or status >= 0) and synced is not None and unsafe:
+            # the two unprotected synchronise calls happen at the boundary where LAST_STEP is entered and after the loop; the server may
+            # have copied the scalar fields (status, flags) before the main thread changed them, so the phase is identified by the boundary
+            near_end = sd is not None and len(bounds) >= 2 and sd >= bounds[-2]["steps_done"]
+            if key == "server:continuation" and status is not None and (status == -2 or status >= 0 or near_end) and synced is not None and unsafe:
                 # snapshot taken while the main thread was inside / after the unprotected synchronise at the end of the run
                 key = "server:continuation:torn-during-final-synchronize"
             viol("server", "continuing the served snapshot does not reproduce the run", "client %d (%s, arrived tick %d of ~%d, %s, steps_done %s): final t %r vs %r" % (ci, cfg["integrator"], inf["tick"], H, phase, sd, R.t, ref.t), key=key)
